@@ -58,11 +58,11 @@ func (conn *Conn) close() {
 		op.ConnClosed(conn)
 	}
 
-	/* call FidDestroy for all remaining fids; requests still executing may be
-	 * dropping theirs from the table meanwhile. A fid whose Tattach, Tauth or
-	 * Twalk is still executing is left to that request: the file server is
-	 * setting it up right now, and retain() will not keep it on a closed
-	 * connection. */
+	/* drop the table's reference to every remaining fid: a fid nobody is using is
+	 * destroyed right here, one that a request is still using when that request
+	 * lets go of it (the file server is never told that a fid is destroyed while it
+	 * is working on it). A fid whose Tattach, Tauth or Twalk is still executing is
+	 * left to that request: retain() will not keep it on a closed connection. */
 	conn.Lock()
 	fids := make([]*SrvFid, 0, len(conn.fidpool))
 	for _, fid := range conn.fidpool {
@@ -73,10 +73,14 @@ func (conn *Conn) close() {
 	for _, fid := range fids {
 		fid.Lock()
 		pending := fid.pending
+		kept := !pending && fid.kept
+		if kept {
+			fid.kept = false
+		}
 		verifPoint("@close.visit", conn, fid, pending)
 		fid.Unlock()
-		if !pending {
-			fid.destroy()
+		if kept {
+			fid.DecRef()
 		}
 	}
 	verifPoint("close.end", conn)
